@@ -39,3 +39,14 @@ Example C06_source_nonvacuous :
   toy_parse (ftext (canon_file demo)) = Some (canon_file demo) /\ wf_file (canon_file demo).
 Proof. exact (conj toy_tiling (conj toy_stable toy_accepts)). Qed.
 Print Assumptions C06_source_nonvacuous.
+
+From Coq Require Import ZArith.
+From F0 Require Import GapLib.
+From Dyn Require Import GapGen GapGenProps.
+
+(* over the REGENERATED gap helpers of expressions/trivia.py: reading back a separator that was emitted for a gap gives the layout it
+   was emitted from — the fixed point at the level of a single gap, for every gap with a line break *)
+Theorem C06_gap_fixed_point : forall g ind isep,
+  has_nl g = true -> layout_from_gap (separator_from_layout (layout_from_gap g) ind isep) = layout_from_gap g.
+Proof. exact layout_fixed_point. Qed.
+Print Assumptions C06_gap_fixed_point.
